@@ -177,6 +177,8 @@ def gen_conversation(rng, kinds, tag):
         c["consume"] = rng.choice(["receive", "iter", "iter_and_receiver", "callback", "callback_late", "callback_mid", "callback_end_raises", "two_receivers", "waitclose_then_receive"] + (["callback_dropped"] if kind == "produce" else []))
     elif kind == "consume":
         c["items"] = gen_items(rng)
+    elif kind == "status":
+        c["polls"] = rng.randint(1, 4)
     elif kind == "consume_eof":
         c["items"] = gen_items(rng)
         c["end"] = rng.choice(["close", "drop", "drop_cb"])
@@ -391,6 +393,18 @@ def run_program(prog, chooser, seed, line_budget=0, cut_w2i=None, remote_backend
 
     def conversation(i, c):
         o = obs[i] = {"kind": c["kind"]}
+        if c["kind"] == "status":
+            # status polling next to the other conversations: it uses a channel of its own for every call
+            o["id"] = -1 - i
+            o["status"] = []
+            for _ in range(c.get("polls", 3)):
+                try:
+                    st = gw.remote_status()
+                    o["status"].append(("ok", st.numchannels >= 0))
+                except Exception as e:  # noqa
+                    o["status"].append((type(e).__name__,))
+                pr.em_i.sleep(0.05)
+            return
         try:
             ch = gw.remote_exec(worker_source(c))
         except OSError as e:
@@ -633,6 +647,8 @@ def canon_item(x):
 def check_conversation(ck, prefix, c, o, out, ex, lossy=False):
     """the properties C02 / C03 / C07 / C10 / C18 on one finished conversation (no connection loss)"""
     k = c["kind"]
+    if k == "status":
+        return
     if k in ("produce", "produce_raise"):
         got = o.get("got")
         want = c["items"]
@@ -778,8 +794,8 @@ def run_property(prop, tier, seed, replay, kinds_weight, prefix_filter, rule, as
         n = nprog_quick if tier == "quick" else nprog_quick * 25
         for _ in range(n):
             prog = [gen_conversation(rng, kinds_weight, "t%d" % i) for i in range(rng.randint(1, 3))]
-            if rng.random() < 0.12:
-                # a gateway reconfigured with py3str_as_py2str=True; items without text (text would arrive as bytes)
+            if rng.random() < 0.12 and not any(c["kind"] == "status" for c in prog):
+                # a gateway reconfigured with py3str_as_py2str=True (status polling excluded: the keys of the status dict are text); items without text (text would arrive as bytes)
                 prog[0]["reconf"] = True
                 for c in prog:
                     for key in ("items", "items2"):
@@ -838,9 +854,12 @@ def run_property(prop, tier, seed, replay, kinds_weight, prefix_filter, rule, as
             ck.count("targeted_runs")
         else:
             chooser = S.ReplayChooser(schedule) if schedule is not None else (S.RandomChooser(r, line_p=0.2) if sd % 3 else S.PCTChooser(r, r.choice([2, 3, 5]), 400))
-        out = run_program(prog, chooser, sd, line_budget=lb)
+        # every third program over the real SocketIO on a scripted socket (reads arrive in oracle-chosen pieces), the others over Popen2IO
+        iok = ("socket" if sd % 3 == 0 else "popen") if not replay else replay["example"].get("io_kind", "popen")
+        out = run_program(prog, chooser, sd, line_budget=lb, io_kind=iok)
         nruns += 1
-        exb = {"prog": prog, "schedule": out["schedule"], "seed": sd, "line_budget": lb, "result": out["result"]}
+        exb = {"prog": prog, "schedule": out["schedule"], "seed": sd, "line_budget": lb, "io_kind": iok, "result": out["result"]}
+        ck.count("io_" + iok)
         ck.case((repr(prog), tuple(out["schedule"][:80])), nontrivial=len(out["schedule"]) > 3)
         for c in prog:
             ck.count("conv_" + c["kind"])
@@ -857,6 +876,13 @@ def run_property(prop, tier, seed, replay, kinds_weight, prefix_filter, rule, as
                 sub.fail("conversation-did-not-start", ex)
                 continue
             check_conversation(sub, "", c, o, out, ex)
+        ids = [out["obs"][i]["id"] for i in range(len(prog)) if isinstance(out["obs"].get(i), dict) and "id" in out["obs"][i]]
+        if len(set(ids)) != len(ids):
+            # two independently started conversations got one channel id (and with it one Channel object)
+            sub.fail("channel-id-handed-out-twice:conversations", {**exb, "ids": ids})
+        for i, c in enumerate(prog):
+            if c["kind"] == "status" and any(r[0] != "ok" for r in out["obs"].get(i, {}).get("status", [])):
+                sub.fail("subchannel-status-poll-failed", {**exb, "status": out["obs"][i]["status"]})
         fin = out["final"]
         ex = {**exb, "final": fin}
         if not fin.get("hasreceiver"):
